@@ -20,7 +20,7 @@ settings is proved for top-level keys (`C13_frame_top`); below the top level it
 is monitored only (`frameWhy`).  The last block holds the obligations over the
 facts regenerated from the Go source on every run.
 -/
-import AGH.Lemmas.MigrateSpec
+import AGH.Lemmas.MigratePath
 import AGH.Model.MigrateSig
 import AGH.Gen.C13Facts
 namespace AGH.C13
@@ -300,6 +300,162 @@ theorem C13_path_independent_partial (o : Oracles) (es : List (Key × YVal)) (cu
   | err k' s' => rfl
   | panic p s => rfl
   | oracle => rfl
+
+/-- **Independence from partial runs.**  For every document that holds no scalar whose
+re-encoding changes its type (`ReencodeStable`, decidable over the shipped round-trip
+oracle: it excludes exactly what the known finding is made of, e.g. an integral
+float) and every split point `cur ≤ k ≤ target ≤ 29`: upgrading to `k`, writing the
+file, reading it back and upgrading to `target` gives exactly the result of the single
+run — the same document, or the same error at the same step.  The Go-typed values that
+steps 12, 20, 28 and 29 leave in the map (`timeutil.Duration`, `UpstreamMode`,
+`[]string`) are part of the proof: `inv` states where they may sit, every step keeps
+it (`step_inv`), and no step asks for a string or a sequence there (`step_sim`). -/
+theorem C13_path_independent (o : Oracles) (es : List (Key × YVal)) (cur k target : Nat)
+    (hv : versionOf (.obj es) = some cur) (hck : cur ≤ k) (hkt : k ≤ target) (h29 : target ≤ 29)
+    (hst : ReencodeStable o (.obj es) = true) (hf : FmtTotal o) :
+    (splitRun o (some (.obj es)) target k).2 = migrate o (some (.obj es)) target := by
+  have hinv : inv o (.obj es) = true := inv_of_clean o es hst
+  by_cases hk0 : cur = k
+  · -- nothing to do in the first run
+    subst hk0
+    simp [splitRun, C13_current_noop o es cur hv (by omega)]
+  have hck' : cur < k := by omega
+  -- the first partial run
+  have hm1 : migrateMem o (some (.obj es)) k = upgradeOutcome (upgrade o (k - cur) cur (.obj es)) :=
+    migrateMem_run o es cur k hv hck' (by omega)
+  cases hup : upgrade o (k - cur) cur (.obj es) with
+  | error fs =>
+    -- it fails: so does the single run, at the same step
+    obtain ⟨f, s⟩ := fs
+    have hone : migrateMem o (some (.obj es)) target = upgradeOutcome (.error (f, s)) := by
+      rw [migrateMem_run o es cur target hv (by omega) h29]
+      have : target - cur = (k - cur) + (target - k) := by omega
+      rw [this, upgrade_append, hup]
+    have h1 : migrate o (some (.obj es)) k = upgradeOutcome (.error (f, s)) := by
+      simp only [migrate, hm1, hup]; cases f <;> simp [upgradeOutcome]
+    have h2 : migrate o (some (.obj es)) target = upgradeOutcome (.error (f, s)) := by
+      simp only [migrate, hone]; cases f <;> simp [upgradeOutcome]
+    rw [h2]
+    simp only [splitRun, h1]
+    cases f <;> simp [upgradeOutcome]
+  | ok dk =>
+    have hupok := upgrade_ok o (k - cur) cur (by omega) es
+    rw [hup] at hupok
+    obtain ⟨ho, hs, _⟩ := hupok
+    obtain ⟨esk, rfl⟩ := ho.elim
+    have hik : inv o (.obj esk) = true := upgrade_inv o (k - cur) cur (by omega) es hinv _ hup
+    have hsk : lookup kSchemaVersion esk = some (.int k) := by
+      have := hs (by omega); simp only [getK] at this; rw [this]; congr 2; omega
+    have hrp : reparse o (.obj esk) = some (er o (.obj esk)) := reparse_inv o hf _ hik
+    have h1 : migrate o (some (.obj es)) k = .up (er o (.obj esk)) := by
+      simp only [migrate, hm1, hup, upgradeOutcome, hrp]
+    have hvk : versionOf (.obj esk) = some k := by simp [versionOf, lookupE_eq_lookup, stampKey, hsk]
+    have hvk' : versionOf (er o (.obj esk)) = some k := versionOf_er o esk k hsk
+    by_cases hkt0 : k = target
+    · -- nothing to do in the second run
+      subst hkt0
+      have hs2 : migrate o (some (er o (.obj esk))) k = .same := by
+        rw [er_obj] at hvk' ⊢
+        exact C13_current_noop o _ k hvk' h29
+      simp only [splitRun, h1, hs2]
+    · have hkt' : k < target := by omega
+      have hce : clean o (er o (.obj esk)) = true := clean_er_inv o _ hik
+      rw [er_obj] at hce hvk'
+      have hie : inv o (.obj (erEnts o esk)) = true := inv_of_clean o _ hce
+      -- the single run continues from `esk`, the second partial run from what is read back
+      have hone : migrateMem o (some (.obj es)) target = upgradeOutcome (upgrade o (target - k) k (.obj esk)) := by
+        rw [migrateMem_run o es cur target hv (by omega) h29]
+        have : target - cur = (k - cur) + (target - k) := by omega
+        rw [this, upgrade_append, hup]
+        have : cur + (k - cur) = k := by omega
+        rw [this]
+      have htwo : migrateMem o (some (.obj (erEnts o esk))) target =
+          upgradeOutcome (upgrade o (target - k) k (.obj (erEnts o esk))) :=
+        migrateMem_run o _ k target hvk' hkt' h29
+      have hsim := upgrade_sim o (target - k) k (by omega) esk (erEnts o esk) hik hie
+        (by simp [erEnts_idem])
+      have hne := C13_error_or_upgraded o (erEnts o esk) target k hvk' hkt'
+      have h2eq : migrate o (some (.obj (erEnts o esk))) target = migrate o (some (.obj es)) target := by
+        simp only [migrate, hone, htwo]
+        cases ha : upgrade o (target - k) k (.obj esk) with
+        | error fa =>
+          cases hb : upgrade o (target - k) k (.obj (erEnts o esk)) with
+          | error fb =>
+            rw [ha, hb] at hsim; simp only [USim] at hsim; subst hsim
+            rfl
+          | ok b => rw [ha, hb] at hsim; exact hsim.elim
+        | ok a =>
+          cases hb : upgrade o (target - k) k (.obj (erEnts o esk)) with
+          | error fb => rw [ha, hb] at hsim; exact hsim.elim
+          | ok b =>
+            rw [ha, hb] at hsim
+            obtain ⟨he, hia, hib⟩ := hsim
+            simp only [upgradeOutcome, reparse_inv o hf a hia, reparse_inv o hf b hib, he]
+      simp only [splitRun, h1, er_obj]
+      rw [h2eq] at hne
+      cases hm : migrate o (some (.obj es)) target <;> simp_all
+
+
+/-- **The model never raises the monitor's `path-dependent` alarm** outside the known class:
+on every case whose document is `ReencodeStable`, the partial-run clause of the spec holds
+of the model's own observation, for every list of split points. -/
+theorem C13_model_meets_spec_path (o : Oracles) (c : Case) (hd : DocLike c.parsed) (hf : FmtTotal o)
+    (hst : ∀ d, c.parsed = some d → ReencodeStable o d = true) :
+    pathWhy o c (modelObs o c) = none := by
+  unfold pathWhy
+  cases hcv : caseVersion c with
+  | none => rfl
+  | some dc =>
+    obtain ⟨din0, cur⟩ := dc
+    unfold caseVersion at hcv
+    cases hp : c.parsed with
+    | none => simp [hp] at hcv
+    | some d0 =>
+      simp only [hp] at hcv hd
+      cases hv : versionOf d0 with
+      | none => simp [hv] at hcv
+      | some cur' =>
+        simp only [hv] at hcv
+        split at hcv
+        · simp at hcv
+        · rename_i hrange
+          simp at hcv hrange
+          obtain ⟨rfl, rfl⟩ := hcv
+          have hst0 := hst d0 hp
+          -- the decoded document is a map (a null document is the empty map)
+          have hobj : ∃ es, versionOf (.obj es) = some cur' ∧ ReencodeStable o (.obj es) = true ∧
+              ∀ t, migrate o (some d0) t = migrate o (some (.obj es)) t := by
+            cases d0 <;> simp [DocLike] at hd
+            · exact ⟨[], by simpa [versionOf, lookupE] using hv, rfl, fun t => migrate_null o t⟩
+            · exact ⟨_, hv, hst0, fun _ => rfl⟩
+          obtain ⟨es, hves, hstes, hmig⟩ := hobj
+          dsimp only
+          by_cases heq : (cur' == c.target) = true
+          · simp [heq]
+          · simp only [heq, Bool.false_eq_true, if_false]
+            have hall : ((c.ks.zip (modelObs o c).splits).all fun ks =>
+                decide (ks.1 < cur') || decide (ks.1 > c.target) || splitOK (modelObs o c).one ks.2) = true := by
+              simp only [modelObs, modelOutcomes, List.map_map]
+              rw [zip_map_all]
+              rw [List.all_eq_true]
+              intro k _
+              by_cases h1 : k < cur'
+              · simp [h1]
+              · by_cases h2 : k > c.target
+                · simp [h2]
+                · have hpi := C13_path_independent o es cur' k c.target hves (by omega) (by omega) hrange.2
+                    hstes hf
+                  have hsplit : splitRun o (some d0) c.target k = splitRun o (some (.obj es)) c.target k := by
+                    simp only [splitRun, hmig]
+                  have hnp := C13_total o (some (.obj es)) c.target trivial
+                  simp only [Function.comp, hp, hsplit, hpi, hmig, h1, h2, decide_false, Bool.false_or]
+                  cases hm : migrate o (some (.obj es)) c.target with
+                  | up d => simp [Outcome.toRes, splitOK, YVal.eq_self_beq]
+                  | err k' s' => simp [Outcome.toRes, splitOK]
+                  | same => simp [Outcome.toRes, splitOK]
+                  | oracle => simp [Outcome.toRes, splitOK]
+                  | panic p s => exact absurd hm (hnp p s)
+            simp [hall]
 
 /-! ### The partial-run clause fails on an integral float -/
 
